@@ -38,8 +38,55 @@ def gen_case(seed, extra=None):
     return first
 
 
+def _late_pair(prog, side):
+    """two variables without initial assignment, first assigned inside the two branches of an if/else in opposite order:
+    the order in which a run's state acquires its variables then depends on the run"""
+    from .past import num, var
+    names = [n for n in ("a", "b", "aa", "bb") if n not in _all_names(prog)][:2]
+    if len(names) < 2 or prog["guard"] != ["true"] or "h" in _all_names(prog):
+        return None
+    a, b = names
+    v1, v2 = side.sample([0, 1, 2, 3, 5], 2)
+    first = ["if", [[["cmp", var("h"), "==", num(1)], [["assign", a, num(v1)], ["assign", b, num(v2)]]]],
+             [["assign", b, num(v1)], ["assign", a, num(v2 if side.random() < 0.7 else v1)]]]
+    draw = ["assign", "h", ["draw", "Bernoulli", [num(side.choice(gen.PROB_POOL))]]]
+    if side.random() < 0.6:
+        # on its own, the coin forgotten after the branch: states of different runs then differ in nothing but the order in
+        # which they acquired a and b
+        body = [draw, first, ["assign", "h", num(0)]]
+        init = [["assign", "h", num(0)], ["assign", "x", num(0)]]      # x: the goal every file of a shared CLI call is asked for
+        if side.random() < 0.4:
+            init.append(["assign", "n", num(0)])
+            body.append(["assign", "n", ["add", var("n"), num(1)]])
+        return {"types": [], "init": init, "guard": ["true"], "body": body}, [a, b]
+    prog = copy.deepcopy(prog)
+    prog["init"] = prog["init"] + [["assign", "h", num(0)]]
+    prog["body"] = [draw, first] + prog["body"]
+    return prog, [a, b]
+
+
+def _all_names(prog):
+    from .past import assigned_vars
+    return set(_init_vars(prog)) | set(assigned_vars(prog["body"]))
+
+
 def _gen_lockstep(rng, seed):
     prog = gen.gen_c12_program(rng)
+    side = _random.Random(f"late|{seed}")
+    late = _late_pair(prog, side) if side.random() < 0.04 else None
+    if late is not None:
+        prog, late_vars = late
+        case = _gen_lockstep_rest(rng, seed, prog)
+        case["goals"] = [[[late_vars[0], 1]], [[late_vars[1], 1]], [[late_vars[0], 2]]][: side.choice([2, 3])] + case["goals"][:1]
+        case["mode"] = side.choice(["simulate", "action"])
+        case["goals"] = [g for g in case["goals"] if not isinstance(g, dict)]
+        case["samples"] = max(case["samples"], 3)
+        case["iterations"] = max(case["iterations"], 2)
+        return case
+    return _gen_lockstep_rest(rng, seed, prog)
+
+
+def _gen_lockstep_rest(rng, seed, prog):
     vs = sorted(_init_vars(prog))
     ng = rng.choice([0, 1, 1, 2])
     goals = []
